@@ -12,6 +12,11 @@ PROP = dict(
         # emission: one CASE per block (all its reorderings, predicted answers) + the pairwise table
         dict(module="DirectiveOrder", cfg=dict(quick="DirectiveOrderEmit_quick.cfg", thorough="DirectiveOrderEmit_thorough.cfg"),
              emit=True, workers=8, timeout=dict(quick=300, thorough=1200)),
+        # the same two jobs for the second pool (index, log, tryfiles, rewrite, header, redir with 2-3 lines each)
+        dict(module="DirectiveOrderTwins", cfg=dict(quick="DirectiveOrderTwins_quick.cfg", thorough="DirectiveOrderTwins_thorough.cfg"),
+             workers=12, timeout=dict(quick=300, thorough=1200)),
+        dict(module="DirectiveOrderTwins", cfg=dict(quick="DirectiveOrderTwinsEmit_quick.cfg", thorough="DirectiveOrderTwinsEmit_thorough.cfg"),
+             emit=True, workers=8, timeout=dict(quick=300, thorough=600)),
     ],
     go=[dict(pkg="c09", test="TestC09", timeout=dict(quick=600, thorough=3000))],
     exhaustive=dict(quick=False, thorough=False),
